@@ -326,6 +326,50 @@ fn block_cases(w: &World, p: &mut Prng, key: &mut u32, prev: &grin_core::core::B
 		b.body.sort();
 		v.push(("plain_output_flagged_coinbase", b));
 	}
+	// coinbase output carrying the range proof of another output (a valid proof, for the wrong commitment)
+	if valid.outputs().iter().any(|o| !o.is_coinbase()) {
+		let mut b = valid.clone();
+		let ci = b.body.outputs.iter().position(|o| o.is_coinbase()).unwrap();
+		let pi = b.body.outputs.iter().position(|o| !o.is_coinbase()).unwrap();
+		b.body.outputs[ci].proof = b.body.outputs[pi].proof;
+		v.push(("coinbase_output_with_foreign_range_proof", b));
+	}
+	// the reward split over two coinbase outputs, one committing to REWARD+fees+V with a valid proof and one to
+	// -V with a junk proof, coinbase kernel signed with the summed blinds: verify_coinbase and both sum checks
+	// balance, only the range proof of the negative output stands between this block and V grin from nothing
+	{
+		let secp = w.kc.secp();
+		let vmint = 1_000_000 * consensus::GRIN_BASE;
+		let k1 = w.key(*key);
+		*key += 1;
+		let big_value = consensus::reward(fees) + vmint;
+		let out1 = {
+			let o = w.output(big_value, &k1);
+			Output::new(OutputFeatures::Coinbase, o.commitment(), o.proof())
+		};
+		let r1 = w.kc.derive_key(big_value, &k1, SwitchCommitmentType::Regular).unwrap();
+		let mut r2b = [0u8; 32];
+		p.fill(&mut r2b);
+		r2b[0] &= 0x7f;
+		r2b[31] |= 1;
+		let r2 = grin_util::secp::key::SecretKey::from_slice(secp, &r2b).unwrap();
+		let c2 = secp
+			.commit_sum(vec![secp.commit(0, r2.clone()).unwrap()], vec![secp.commit_value(vmint).unwrap()])
+			.unwrap();
+		let out2 = Output::new(OutputFeatures::Coinbase, c2, out1.proof());
+		let rsum = secp.blind_sum(vec![r1, r2], vec![]).unwrap();
+		let excess = secp.commit(0, rsum.clone()).unwrap();
+		let pubkey = excess.to_pubkey(secp).unwrap();
+		let mut kern = TxKernel::with_features(KernelFeatures::Coinbase);
+		kern.excess = excess;
+		let msg = kern.msg_to_sign().unwrap();
+		kern.excess_sig = grin_core::libtx::aggsig::sign_single(secp, &msg, &rsum, None, Some(&pubkey)).unwrap();
+		if let Ok(mut b) = Block::from_reward(prev, &txv, out1, kern, grin_core::pow::Difficulty::from_num(5)) {
+			b.body.outputs.push(out2);
+			b.body.sort();
+			v.push(("reward_split_with_negative_coinbase_output", b));
+		}
+	}
 	// total kernel offset in the header changed
 	{
 		let mut b = valid.clone();
@@ -616,7 +660,7 @@ fn main() {
 		 coinbase flag on an output / kernel) — valid must pass Transaction::validate, every corruption must fail. Blocks: the same \
 		 transactions + coinbase through Block::validate, corruptions: coinbase over-claim, over-claim with a compensating burn so \
 		 the whole-block sum still balances, coinbase flag removed from output / kernel, second subsidy, plain output flagged \
-		 coinbase, header total offset changed. Chain: fork-tree histories; before half of the deliveries a value-creating block \
+		 coinbase, header total offset changed, coinbase output carrying another output's range proof, reward split over two coinbase outputs one of which commits to a negative value under a junk proof (sums and verify_coinbase balance). Chain: fork-tree histories; before half of the deliveries a value-creating block \
 		 with reference-computed header commitments must be refused by process_block; after every accepted block the stored \
 		 running sums of the head == sums recomputed from the replayed full state and unspent − supply(height) == kernels + offset. \
 		 Every case counts as non-trivial; distinct by (shape, operator).",
@@ -636,6 +680,7 @@ fn main() {
 	for op in [
 		"coinbase_overclaim_with_compensating_burn", "coinbase_overclaim", "coinbase_flag_removed_from_output",
 		"coinbase_flag_removed_from_kernel", "second_subsidy_claimed", "header_total_offset_changed",
+		"coinbase_output_with_foreign_range_proof", "reward_split_with_negative_coinbase_output",
 	] {
 		run.require(&format!("block_corruption.{}", op), run.counter(&format!("block_corruption.{}", op)), run.tier.pick(20, 200));
 	}
